@@ -4,8 +4,9 @@
    The extracted model is run against the real containers on every ./check (T-cor). *)
 From Coq Require Import ZArith List Bool.
 From MomoCommon Require Import GenPrelude.
-From C14 Require Import PropagationModel Model Proofs Bodies BodiesProofs Crew GenProofs.
+From C14 Require Import PropagationModel Model Proofs Bodies BodiesProofs Crew GenProofs GenProofs2.
 From C14 Require Gen_TreeSet Gen_HashSet Gen_HashMultiMap Gen_DataTable Gen_SetCrew Gen_CrewContract.
+From C14 Require Gen_SetCrew2 Gen_SetCrewInl Gen_TreeSet2 Gen_HashSet2 Gen_DataTable2 Gen_MemPool Gen_MemPoolData Gen_MergeToFacts.
 Import ListNotations.
 Local Open Scope Z_scope.
 
@@ -609,3 +610,72 @@ Theorem C14_clear_refines_generated :
     (forall k c' w', cc_clear k c w = Ok c' w' -> items_of c' = []).
 Proof. exact clear_refines_generated. Qed.
 Print Assumptions C14_clear_refines_generated.
+
+(* ---- (12) round 7: the GENERATED two-object functions (the second object's fields are extra parameters) -------------------- *)
+(* SetCrew<...,true>::Swap exchanges the data pointers; SetCrew(SetCrew&&) takes the source's pointer and leaves the source
+   null, whatever the new object's storage held *)
+Theorem C14_gen_ptr_crew_swap_move :
+  (forall a b, Gen_SetCrew2.Swap a b = (b, a)) /\
+  (forall junk src, Gen_SetCrew2.MoveCtor junk src = (src, 0)) /\
+  (forall junk src, Gen_SetCrew.pvIsNull (snd (Gen_SetCrew2.MoveCtor junk src)) = true).
+Proof. exact gen_ptr_crew_swap_move. Qed.
+Print Assumptions C14_gen_ptr_crew_swap_move.
+
+(* SetCrew<...,false>::Swap exchanges the traits objects (the second-wave seed put an early return in front of it) *)
+Theorem C14_gen_inline_crew_swap : forall t1 t2, Gen_SetCrewInl.Swap t1 t2 = (t2, t1).
+Proof. exact gen_inline_crew_swap. Qed.
+Print Assumptions C14_gen_inline_crew_swap.
+
+(* the hand-written crew model (Crew.v) refines the generated functions *)
+Theorem C14_crew_model_refines_generated :
+  (forall a b, (ptr_of (fst (pcrew_swap a b)), ptr_of (snd (pcrew_swap a b))) = Gen_SetCrew2.Swap (ptr_of a) (ptr_of b)) /\
+  (forall junk s, (ptr_of (fst (pcrew_move_ctor s)), ptr_of (snd (pcrew_move_ctor s))) = Gen_SetCrew2.MoveCtor junk (ptr_of s)) /\
+  (forall a b, (ic_traits (fst (icrew_swap a b)), ic_traits (snd (icrew_swap a b))) = Gen_SetCrewInl.Swap (ic_traits a) (ic_traits b)).
+Proof. exact crew_model_refines_generated. Qed.
+Print Assumptions C14_crew_model_refines_generated.
+
+(* TreeSet::Swap, HashSet::Swap, DataTable::Swap: every field of each object is the other's old one -- crew included, no field
+   left behind *)
+Theorem C14_gen_container_swaps :
+  (forall c n r p c' n' r' p', Gen_TreeSet2.Swap c n r p c' n' r' p' = (c', n', r', p', c, n, r, p)) /\
+  (forall c n k b c' n' k' b', Gen_HashSet2.Swap c n k b c' n' k' b' = (c', n', k', b', c, n, k, b)) /\
+  (forall c r p i c' r' p' i', Gen_DataTable2.Swap c r p i c' r' p' i' = (c', r', p', i', c, r, p, i)).
+Proof. exact gen_container_swaps. Qed.
+Print Assumptions C14_gen_container_swaps.
+
+Theorem C14_cc_swap_refines_generated :
+  forall a b,
+    let '(a', b') := cc_swap a b in
+    Gen_TreeSet2.Swap (crew_ptr a) (count2 a) (storage2 a) (storage2 a) (crew_ptr b) (count2 b) (storage2 b) (storage2 b)
+      = (crew_ptr a', count2 a', storage2 a', storage2 a', crew_ptr b', count2 b', storage2 b', storage2 b') /\
+    Gen_HashSet2.Swap (crew_ptr a) (count2 a) (count2 a) (storage2 a) (crew_ptr b) (count2 b) (count2 b) (storage2 b)
+      = (crew_ptr a', count2 a', count2 a', storage2 a', crew_ptr b', count2 b', count2 b', storage2 b').
+Proof. exact cc_swap_refines_generated. Qed.
+Print Assumptions C14_cc_swap_refines_generated.
+
+(* fc18ee9: MemPool::Data::Swap always exchanges the managers together with the allocation counts; MemPool::Swap exchanges
+   params, Data, buffer list and cache *)
+Theorem C14_gen_mempool_swaps :
+  (forall m a m' a', Gen_MemPoolData.Swap m a m' a' = (m', a', m, a)) /\
+  (forall p d f cc_ ch p' d' f' cc' ch', Gen_MemPool.Swap p d f cc_ ch p' d' f' cc' ch' = (p', d', f', cc', ch', p, d, f, cc_, ch)).
+Proof. exact gen_mempool_swaps. Qed.
+Print Assumptions C14_gen_mempool_swaps.
+
+(* ... hence DataTable::Swap composed of the generated functions is tbl_swap: each table's raw pool keeps using the manager
+   stored in the crew the table holds *)
+Theorem C14_table_swap_refines_generated :
+  forall a b, table_swap_composed a b = tbl_swap a b /\
+    (tbl_ok a = true -> tbl_ok b = true ->
+     tbl_ok (fst (table_swap_composed a b)) = true /\ tbl_ok (snd (table_swap_composed a b)) = true).
+Proof. exact table_swap_refines_generated. Qed.
+Print Assumptions C14_table_swap_refines_generated.
+
+(* c7fda03: the empty-destination branch of TreeSet::MergeTo is `Swap(dst); IncVersion; IncVersion; return`, so crew and node
+   params of the two sets are exchanged together *)
+Theorem C14_mergeto_empty_destination_is_swap :
+  Gen_MergeToFacts.mergeto_empty_dst_branch = mergeto_expected_branch /\
+  (forall c n r p c' n' r' p',
+     let '(sc, sn, sr, sp, dc, dn, dr, dp) := Gen_TreeSet2.Swap c n r p c' n' r' p' in
+     (dc, dp) = (c, p) /\ (sc, sp) = (c', p')).
+Proof. exact mergeto_empty_destination_is_swap. Qed.
+Print Assumptions C14_mergeto_empty_destination_is_swap.
